@@ -16,6 +16,7 @@
  * Lines starting with '!' are direct-oracle lines (model independent). */
 #include "sess.h"
 #include <rfb/rfbregion.h>
+#include <signal.h>
 
 extern void (*rfbVerifPreEncodeHook)(rfbClientPtr, sraRegionPtr, sraRegionPtr, int, int);
 
@@ -33,6 +34,9 @@ static hclient hc[MAXC];
 static vh_conn conns[MAXC];
 static uint32_t drawctr = 1;
 static int hook_mode = 0, hook_code = 0, hook_calls = 0, hook_last_ns = -1;
+static int peergone[MAXC];          /* the harness closed its end of the connection */
+static int nscr_hook = -1, extfail = -1;   /* application's screen-layout hooks: count reported, index at which the per-screen hook fails */
+static int df_on = 0, df_calls = 0, df_last = -1;
 
 /* pre-encode snapshot (of the buffer the encoders read: the client's scaled screen) */
 static unsigned char *snap; static int snap_w, snap_h, snap_b, snap_valid;
@@ -47,11 +51,13 @@ static uint32_t pixmask(int b) { return b == 1 ? 0xFFu : b == 2 ? 0x7FFFu : 0xFF
 static uint32_t getpix(const unsigned char *p, int b) {
   if (b == 1) return p[0];
   if (b == 2) { uint16_t v; memcpy(&v, p, 2); return v; }
+  if (b == 3) return (uint32_t)p[0] | ((uint32_t)p[1] << 8) | ((uint32_t)p[2] << 16);
   { uint32_t v; memcpy(&v, p, 4); return v; }
 }
 static void putpix(unsigned char *p, int b, uint32_t v) {
   if (b == 1) p[0] = (unsigned char)v;
   else if (b == 2) { uint16_t s = (uint16_t)v; memcpy(p, &s, 2); }
+  else if (b == 3) { p[0] = v & 255; p[1] = (v >> 8) & 255; p[2] = (v >> 16) & 255; }
   else memcpy(p, &v, 4);
 }
 /* canonical true-colour formats (what rfbInitServerFormat produces on a little-endian host) */
@@ -63,7 +69,7 @@ static void fmt_of(int b, int *rm, int *gm, int *bm, int *rs, int *gs, int *bs) 
 /* reference pixel translation: the colour-scaling rule, independent of the library's tables */
 static uint32_t xl(uint32_t v, int s, int c) {
   int rm, gm, bm, rs, gs, bs, RM, GM, BM, RS, GS, BS; uint32_t r, g, b;
-  if (s == c) return v;
+  if (s == c || (s >= 3 && c >= 3)) return v & 0xFFFFFFu;
   fmt_of(s, &rm, &gm, &bm, &rs, &gs, &bs); fmt_of(c, &RM, &GM, &BM, &RS, &GS, &BS);
   r = (v >> rs) & rm; g = (v >> gs) & gm; b = (v >> bs) & bm;
   r = (r * RM + rm / 2) / rm; g = (g * GM + gm / 2) / gm; b = (b * BM + bm / 2) / bm;
@@ -107,6 +113,8 @@ static void repic(int n, int w, int h) {
 }
 
 static int live(int id) { return id >= 0 && id < MAXC && hc[id].used && conns[id].cl && conns[id].cl->sock != RFB_INVALID_SOCKET; }
+/* the client can still speak */
+static int talk(int id) { return live(id) && !peergone[id]; }
 
 /* is (x,y) inside the clipped soft-cursor box at the client's cursor position? */
 static int in_cursor_box(rfbClientPtr cl, int x, int y) {
@@ -224,6 +232,15 @@ static void apply_msgs(int n) {
       vh_buf_consume(&c->out, 6);
       continue;
     }
+    if (p[0] == 1) {                                   /* SetColourMapEntries (colour-map client: BGR233 palette) */
+      unsigned first, ncol;
+      if (c->out.n < 6) break;
+      first = be16(p + 2); ncol = be16(p + 4);
+      if (c->out.n < 6 + 6 * (size_t)ncol) break;
+      P("%scmap %u %u", printed ? " | " : "", first, ncol); printed++;
+      vh_buf_consume(&c->out, 6 + 6 * (size_t)ncol);
+      continue;
+    }
     if (p[0] != 0) { O("!wire %d unexpected message type %d", n, p[0]); c->out.n = 0; break; }
     if (c->out.n < 4) break;
     nrects = be16(p + 2); off = 4;
@@ -274,12 +291,18 @@ static void apply_msgs(int n) {
           unsigned ns, s;
           if (c->out.n < off + 4) { ok = 0; break; }
           ns = p[off]; off += 4;
+          if (nscr_hook >= 0) {            /* the count byte is the application's count modulo 256 */
+            if (ns != (unsigned)(nscr_hook & 255)) O("!wire %d screen count byte %u for %d screens", n, ns, nscr_hook);
+            ns = (unsigned)nscr_hook;
+          }
           if (c->out.n < off + 16 * (size_t)ns) { ok = 0; break; }
           if (pixels) O("!order %d FAIL size message after pixel data in one update", n);
           sprintf(tmp, "ext r=%d s=%d %d %d [", x, y, w, h); vh_buf_add(&line, tmp, strlen(tmp));
+          if (ns > 2) { sprintf(tmp, "n=%u;", ns); vh_buf_add(&line, tmp, strlen(tmp)); }
           for (s = 0; s < ns; s++) {
             const unsigned char *q = p + off + 16 * s;
-            sprintf(tmp, "%s%u,%d,%d,%d,%d,%u", s ? ";" : "", be32(q), be16(q + 4), be16(q + 6), be16(q + 8), be16(q + 10), be32(q + 12));
+            if (ns > 2 && s != 0 && s != ns - 1) continue;
+            sprintf(tmp, "%s%u,%d,%d,%d,%d,%u", (s && ns <= 2) || (ns > 2 && s) ? ";" : "", be32(q), be16(q + 4), be16(q + 6), be16(q + 8), be16(q + 10), be32(q + 12));
             vh_buf_add(&line, tmp, strlen(tmp));
           }
           vh_buf_add(&line, "]", 1);
@@ -326,7 +349,7 @@ static void do_newfb(int w, int h, int b, uint32_t seed) {
 /* what a conforming client does after changing its pixel format or scale: ask for everything again */
 static void full_request(int id) {
   unsigned char m[10] = { 3, 0, 0, 0, 0, 0, 0xFF, 0xFF, 0xFF, 0xFF };
-  if (!live(id)) return;
+  if (!talk(id)) return;
   vh_send(&conns[id], m, 10);
   rfbProcessClientMessage(conns[id].cl);
 }
@@ -341,10 +364,21 @@ static int my_sds_hook(int width, int height, int numScreens, rfbExtDesktopScree
   return hook_code;
 }
 static rfbSetDesktopSizeHookPtr default_hook;
+static rfbNumberOfExtDesktopScreensPtr default_nscr;
+static rfbGetExtDesktopScreenPtr default_getscr;
+static int my_nscr(rfbClientPtr cl) { (void)cl; return nscr_hook; }
+static rfbBool my_getscr(int i, rfbExtDesktopScreen *s, rfbClientPtr cl) {
+  if (extfail >= 0 && i == extfail) return FALSE;
+  s->id = (uint32_t)i + 1; s->x = (uint16_t)i; s->y = 0;
+  s->width = cl->scaledScreen->width; s->height = cl->scaledScreen->height; s->flags = 0;
+  return TRUE;
+}
+static void my_df(rfbClientPtr cl, int result) { (void)cl; df_calls++; df_last = result; }
 
 int main(void) {
   char *line, *tok[1024];
   rfbVerifPreEncodeHook = pre_encode;
+  signal(SIGPIPE, SIG_IGN);
   while ((line = vh_readline())) {
     int n = vh_split(line, tok, 1024);
     int w0 = scr ? scr->width : 0, h0 = scr ? scr->height : 0, appresize = 0;
@@ -353,6 +387,7 @@ int main(void) {
       W = atoi(tok[1]); H = atoi(tok[2]); B = atoi(tok[3]);
       scr = vh_screen(W, H, B);
       default_hook = scr->setDesktopSizeHook;
+      default_nscr = scr->numberOfExtDesktopScreensHook; default_getscr = scr->getExtDesktopScreenHook;
       fill(scr->frameBuffer, W, H, B, 0);
       puts("ok"); appresize = 1;
     } else if (!scr) { puts("bad-op");
@@ -378,7 +413,7 @@ int main(void) {
       puts("ok");
     } else if (!strcmp(tok[0], "setenc") && n == 5) {
       int id = atoi(tok[1]), cr = atoi(tok[2]), cs = atoi(tok[3]), sz = atoi(tok[4]); unsigned char m[4 + 24]; int k = 0, ne;
-      if (!live(id)) { puts("bad-op"); continue; }
+      if (!talk(id)) { puts("bad-op"); continue; }
       ne = 1 + !!cr + !!cs + !!(sz & 1) + !!(sz & 2);
       m[0] = 2; m[1] = 0; m[2] = 0; m[3] = (unsigned char)ne;
       memset(m + 4, 0, 4); k = 8;                                   /* Raw */
@@ -396,22 +431,26 @@ int main(void) {
       }
       puts("ok");
     } else if (!strcmp(tok[0], "setpf") && n == 3) {
-      int id = atoi(tok[1]), b = atoi(tok[2]); unsigned char m[20]; int rm, gm, bm, rs, gs, bs;
-      if (!live(id) || (b != 1 && b != 2 && b != 4)) { puts("bad-op"); continue; }
-      fmt_of(b, &rm, &gm, &bm, &rs, &gs, &bs);
+      /* b = 1,2,3,4: canonical true-colour format of b bytes; b = 0: 8-bit COLOUR-MAP client (the server
+         answers with a BGR233 palette and treats it as true colour from then on) */
+      int id = atoi(tok[1]), b = atoi(tok[2]), fb = b ? b : 1; unsigned char m[20]; int rm, gm, bm, rs, gs, bs;
+      if (!talk(id) || b < 0 || b > 4) { puts("bad-op"); continue; }
+      fmt_of(fb, &rm, &gm, &bm, &rs, &gs, &bs);
       memset(m, 0, sizeof m);
-      m[0] = 0; m[4] = (unsigned char)(8 * b); m[5] = (unsigned char)(8 * b); m[6] = 0; m[7] = 1;
+      m[0] = 0; m[4] = (unsigned char)(8 * fb); m[5] = (unsigned char)(8 * fb); m[6] = 0; m[7] = b ? 1 : 0;
       m[8] = rm >> 8; m[9] = rm & 255; m[10] = gm >> 8; m[11] = gm & 255; m[12] = bm >> 8; m[13] = bm & 255;
       m[14] = (unsigned char)rs; m[15] = (unsigned char)gs; m[16] = (unsigned char)bs;
       vh_send(&conns[id], m, 20);
       rfbProcessClientMessage(conns[id].cl);
-      hc[id].fmt = b;
+      if (!live(id)) { puts("closed"); continue; }
+      hc[id].fmt = fb;
       { size_t i, k = (size_t)hc[id].pw * hc[id].ph; for (i = 0; i < k; i++) hc[id].pic[i] = NOPIX; }   /* old contents are in the old format */
+      vh_drain(&conns[id]);
+      apply_msgs(id);                 /* "none", or the palette */
       full_request(id);
-      puts("ok");
     } else if (!strcmp(tok[0], "setscale") && n == 3) {
       int id = atoi(tok[1]); unsigned char m[4];
-      if (!live(id)) { puts("bad-op"); continue; }
+      if (!talk(id)) { puts("bad-op"); continue; }
       m[0] = 8; m[1] = (unsigned char)atoi(tok[2]); m[2] = 0; m[3] = 0;
       vh_send(&conns[id], m, 4);
       rfbProcessClientMessage(conns[id].cl);
@@ -422,7 +461,7 @@ int main(void) {
       full_request(id);
     } else if (!strcmp(tok[0], "ptr") && n == 4) {
       int id = atoi(tok[1]), x = atoi(tok[2]), y = atoi(tok[3]); unsigned char m[6];
-      if (!live(id)) { puts("bad-op"); continue; }
+      if (!talk(id)) { puts("bad-op"); continue; }
       m[0] = 5; m[1] = 0; m[2] = x >> 8; m[3] = x & 255; m[4] = y >> 8; m[5] = y & 255;
       vh_send(&conns[id], m, 6);
       rfbProcessClientMessage(conns[id].cl);
@@ -453,7 +492,7 @@ int main(void) {
     } else if (!strcmp(tok[0], "sds") && n == 5) {
       int id = atoi(tok[1]), w = atoi(tok[2]), h = atoi(tok[3]), ns = atoi(tok[4]), k, calls0 = hook_calls;
       unsigned char *m;
-      if (!live(id) || ns < 0 || ns > 255) { puts("bad-op"); continue; }
+      if (!talk(id) || ns < 0 || ns > 255) { puts("bad-op"); continue; }
       m = (unsigned char *)calloc(8 + 16 * (size_t)ns + 1, 1);
       m[0] = 251; m[2] = w >> 8; m[3] = w & 255; m[4] = h >> 8; m[5] = h & 255; m[6] = (unsigned char)ns;
       for (k = 0; k < ns; k++) { unsigned char *q = m + 8 + 16 * k; q[3] = (unsigned char)(k + 1); q[8] = w >> 8; q[9] = w & 255; q[10] = h >> 8; q[11] = h & 255; }
@@ -466,26 +505,121 @@ int main(void) {
       puts(live(id) ? "ok" : "closed");
     } else if (!strcmp(tok[0], "newfb") && n == 5) {
       int w = atoi(tok[1]), h = atoi(tok[2]), b = atoi(tok[3]);
-      if (w < 1 || h < 1 || (b != 1 && b != 2 && b != 4)) { puts("bad-op"); continue; }
+      if (w < 1 || h < 1 || b < 1 || b > 4) { puts("bad-op"); continue; }
       do_newfb(w, h, b, (uint32_t)atoi(tok[4]) + 100000u);
       puts("ok"); appresize = 1;
     } else if (!strcmp(tok[0], "req") && n == 7) {
       int id = atoi(tok[1]); unsigned char m[10]; int x = atoi(tok[3]), y = atoi(tok[4]), w = atoi(tok[5]), h = atoi(tok[6]);
-      if (!live(id)) { puts("bad-op"); continue; }
+      if (!talk(id)) { puts("bad-op"); continue; }
       m[0] = 3; m[1] = (unsigned char)atoi(tok[2]);
       m[2] = x >> 8; m[3] = x & 255; m[4] = y >> 8; m[5] = y & 255; m[6] = w >> 8; m[7] = w & 255; m[8] = h >> 8; m[9] = h & 255;
       vh_send(&conns[id], m, 10);
       rfbProcessClientMessage(conns[id].cl);
       puts("ok");
     } else if (!strcmp(tok[0], "update") && n == 2) {
-      int id = atoi(tok[1]);
+      int id = atoi(tok[1]), due, calls0 = df_calls; rfbClientPtr cl;
       if (!live(id)) { puts("bad-op"); continue; }
+      cl = conns[id].cl;
       snap_valid = 0;
-      rfbUpdateClient(conns[id].cl);
+      due = FB_UPDATE_PENDING(cl) && !sraRgnEmpty(cl->requestedRegion);   /* rfbUpdateClient's own condition, for the hook oracle */
+      if (due && cl->useNewFBSize && cl->newFBSizePending && cl->useExtDesktopSize && nscr_hook >= 0 && extfail >= 0 && extfail < nscr_hook) {
+        /* the APPLICATION's screen hook will fail: the library drops the size message; the oracle treats the
+           client from here on like one that cannot be told (the new size is used) */
+        rfbScreenInfoPtr ss = cl->scaledScreen;
+        hc[id].stale = 0; hc[id].told_w = ss->width; hc[id].told_h = ss->height;
+        if (hc[id].pw != ss->width || hc[id].ph != ss->height) repic(id, ss->width, ss->height);
+      }
+      rfbUpdateClient(cl);
+      if (df_on && (df_calls - calls0 != (due ? 1 : 0)))
+        printf("!df %d FAIL displayFinishedHook ran %d times for %s update\n", id, df_calls - calls0, due ? "a due" : "no");
+      if (conns[id].cl && conns[id].cl->sock == RFB_INVALID_SOCKET) {
+        /* the write failed (peer gone): the connection is closed, nothing more is ever sent */
+        if (!peergone[id]) printf("!close %d FAIL server closed a healthy connection\n", id);
+        if (df_on && due && df_last != FALSE) printf("!df %d FAIL failed update reported as finished successfully\n", id);
+        puts("closed");
+        continue;
+      }
       vh_drain(&conns[id]);
       if (getenv("VH_HEX")) { printf("!hex "); vh_puthex(stdout, conns[id].out.p, conns[id].out.n > 200 ? 200 : conns[id].out.n); putchar('\n'); }
       apply_msgs(id);
       oracle_inv(id);
+    } else if (!strcmp(tok[0], "close") && n == 2) {
+      /* the viewer goes away (the server notices at its next write or read) */
+      int id = atoi(tok[1]);
+      if (!talk(id)) { puts("bad-op"); continue; }
+      vh_drain(&conns[id]); vh_buf_reset(&conns[id].out);
+      close(conns[id].peer); conns[id].peer = -1; peergone[id] = 1;
+      puts("ok");
+    } else if (!strcmp(tok[0], "reap") && n == 2) {
+      /* what the event loop does with a closed client */
+      int id = atoi(tok[1]);
+      if (id < 0 || id >= MAXC || !hc[id].used || !conns[id].cl || conns[id].cl->sock != RFB_INVALID_SOCKET) { puts("bad-op"); continue; }
+      rfbClientConnectionGone(conns[id].cl);
+      if (conns[id].cl) printf("!reap %d FAIL client record still referenced\n", id);
+      puts("ok");
+    } else if (!strcmp(tok[0], "sdstrunc") && (n == 4 || n == 5)) {
+      /* SetDesktopSize for ns screens of which only the first `cut` bytes arrive, then the viewer is gone;
+         5th argument 1: it goes away with unread data in its queue (the server's read fails with ECONNRESET
+         instead of seeing end-of-file) */
+      int id = atoi(tok[1]), cut = atoi(tok[2]), ns = atoi(tok[3]), calls0 = hook_calls, rst = n == 5 && atoi(tok[4]); unsigned char *m; size_t tot;
+      if (!talk(id) || ns < 0 || ns > 255) { puts("bad-op"); continue; }
+      tot = 8 + 16 * (size_t)ns;
+      if (cut < 0 || (size_t)cut >= tot) { puts("bad-op"); continue; }
+      m = (unsigned char *)calloc(tot + 1, 1);
+      m[0] = 251; m[3] = 9; m[5] = 7; m[6] = (unsigned char)ns;
+      if (cut) vh_send(&conns[id], m, (size_t)cut);
+      free(m);
+      vh_drain(&conns[id]); vh_buf_reset(&conns[id].out);
+      if (rst) { unsigned char bell = 2; if (write(conns[id].cl->sock, &bell, 1) != 1) printf("!sds %d cannot queue data\n", id); }
+      close(conns[id].peer); conns[id].peer = -1; peergone[id] = 1;
+      rfbProcessClientMessage(conns[id].cl);
+      if (hook_calls != calls0) printf("!sds %d FAIL hook called for a truncated request\n", id);
+      puts(live(id) ? "open" : "closed");
+    } else if (!strcmp(tok[0], "nscr") && n == 2) {
+      /* the application's screen layout: K screens (K < 0: the library's default hooks) */
+      nscr_hook = atoi(tok[1]);
+      if (nscr_hook < 0) { nscr_hook = -1; scr->numberOfExtDesktopScreensHook = default_nscr; scr->getExtDesktopScreenHook = default_getscr; }
+      else { scr->numberOfExtDesktopScreensHook = my_nscr; scr->getExtDesktopScreenHook = my_getscr; }
+      puts("ok");
+    } else if (!strcmp(tok[0], "extfail") && n == 2) {
+      extfail = atoi(tok[1]);        /* index at which the per-screen hook fails; -1: never (needs nscr >= 0) */
+      puts("ok");
+    } else if (!strcmp(tok[0], "dfhook") && n == 2) {
+      df_on = atoi(tok[1]); scr->displayFinishedHook = df_on ? my_df : NULL;
+      puts("ok");
+    } else if (!strcmp(tok[0], "emit") && n == 4) {
+      /* the size-message emitters called directly with a partly filled update buffer (their flush rule) */
+      int id = atoi(tok[1]), kind = atoi(tok[2]), ub = atoi(tok[3]), ok, ub1; rfbClientPtr cl; size_t need, got;
+      if (!live(id) || ub < 0 || ub > UPDATE_BUF_SIZE) { puts("bad-op"); continue; }
+      cl = conns[id].cl;
+      if (peergone[id]) {
+        /* viewer gone: a needed flush fails inside the emitter (FALSE, connection closed); otherwise the
+           harness' own flush afterwards fails */
+        memset(cl->updateBuf, 0, (size_t)ub); cl->ublen = ub;
+        ok = kind ? rfbSendExtDesktopSize(cl, cl->scaledScreen->width, cl->scaledScreen->height)
+                  : rfbSendNewFBSize(cl, cl->scaledScreen->width, cl->scaledScreen->height);
+        ub1 = cl->ublen;
+        if (cl->sock != RFB_INVALID_SOCKET) rfbSendUpdateBuf(cl);
+        printf("emit ok=%d ub=%d %s\n", !!ok, ub1, cl->sock == RFB_INVALID_SOCKET ? "closed" : "open");
+        continue;
+      }
+      vh_drain(&conns[id]); vh_buf_reset(&conns[id].out);
+      memset(cl->updateBuf, 0, (size_t)ub); cl->ublen = ub;
+      ok = kind ? rfbSendExtDesktopSize(cl, cl->scaledScreen->width, cl->scaledScreen->height)
+                : rfbSendNewFBSize(cl, cl->scaledScreen->width, cl->scaledScreen->height);
+      ub1 = cl->ublen;
+      if (ub1 < 0 || ub1 > UPDATE_BUF_SIZE) printf("!emit %d FAIL ublen %d outside the update buffer\n", id, ub1);
+      rfbSendUpdateBuf(cl);
+      vh_drain(&conns[id]); got = conns[id].out.n;
+      need = kind ? 12 + 4 + 16 * (size_t)(nscr_hook >= 0 ? nscr_hook : 1) : 12;
+      if (ok && got != (size_t)ub + need) printf("!emit %d FAIL %zu bytes on the wire, expected %zu\n", id, got, (size_t)ub + need);
+      if (ok && got >= need) {
+        const unsigned char *q = conns[id].out.p + got - need;
+        if ((int32_t)be32(q + 8) != (kind ? (int32_t)0xFFFFFECC : (int32_t)0xFFFFFF21) || be16(q + 4) != cl->scaledScreen->width || be16(q + 6) != cl->scaledScreen->height)
+          printf("!emit %d FAIL rectangle header damaged\n", id);
+      }
+      vh_buf_reset(&conns[id].out);
+      printf("emit ok=%d ub=%d\n", !!ok, ub1);
     } else if (!strcmp(tok[0], "state") && n == 2) {
       int id = atoi(tok[1]); rfbClientPtr cl;
       if (!live(id)) { puts("bad-op"); continue; }
